@@ -230,6 +230,8 @@ def c04(res: CheckResult) -> None:
              list(DF.fam_shadow(res.tier, rng)), ic, verdicts=True, rng=rng)
     def_unit(res, "every placement of {absent, bare, pre, post} on every class of every shape (exhaustive)",
              list(DF.fam_hier_small(res.tier, rng)), ic, verdicts=True, rng=rng)
+    def_unit(res, "special methods (__call__) in hierarchies: contracts inherited and invariants checked like public methods",
+             list(DF.fam_dunder(res.tier, rng)), ic, verdicts=True, rng=rng)
     def_unit(res, "invariant lists along definition histories (every check_on combination): which members check them",
              list(DF.fam_inv_lists(res.tier, rng)), ic, verdicts=True, rng=rng)
     def_unit(res, "wrap table: which members of a class and of its sub-classes check the accumulated invariants",
